@@ -1,0 +1,158 @@
+//! Verification hooks for the area ReconfUnits (feature `verif-hooks`,
+//! add-only; a child module of `unit.rs` because `BmpTcpInRunner` is private
+//! there): `run_probed` is `BmpTcpIn::run`, statement for statement (real
+//! `StandardTcpListenerFactory`, real `ConfigAcceptor`), and additionally
+//! hands out read handles on what the unit builds for itself: the three
+//! `ArcSwap` settings, the router tables and the metrics. Nothing here has
+//! behaviour of its own.
+use super::*;
+
+pub struct Probes {
+    router_id_template: Arc<ArcSwap<String>>,
+    filter_name: Arc<ArcSwap<FilterName>>,
+    tracing_mode: Arc<ArcSwap<TracingMode>>,
+    router_states: Arc<
+        FrimMap<
+            ingress::IngressId,
+            Arc<tokio::sync::Mutex<Option<BmpState>>>,
+        >,
+    >,
+    bmp_in_metrics: Arc<BmpTcpInMetrics>,
+    bmp_metrics: Arc<BmpStateMachineMetrics>,
+}
+
+impl Probes {
+    pub fn router_id_template(&self) -> String {
+        (**self.router_id_template.load()).clone()
+    }
+
+    pub fn filter_name(&self) -> String {
+        format!("{}", **self.filter_name.load())
+    }
+
+    pub fn tracing_mode(&self) -> String {
+        format!("{}", **self.tracing_mode.load())
+    }
+
+    /// The ingress ids of the routers in `router_states`, sorted.
+    pub fn routers(&self) -> Vec<ingress::IngressId> {
+        let mut v: Vec<ingress::IngressId> =
+            self.router_states.guard().iter().map(|(k, _)| *k).collect();
+        v.sort();
+        v
+    }
+
+    /// The unit's metrics in the Prometheus text format (real
+    /// `Source::append` / `Target`).
+    pub fn metrics_text(&self, component: &str) -> String {
+        use crate::metrics::{OutputFormat, Source, Target};
+        let mut target = Target::new(OutputFormat::Prometheus);
+        self.bmp_in_metrics.append(component, &mut target);
+        self.bmp_metrics.append(component, &mut target);
+        target.into_string()
+    }
+}
+
+/// `BmpTcpIn::run`.
+pub async fn run_probed(
+    unit: BmpTcpIn,
+    mut component: Component,
+    gate: Gate,
+    mut waitpoint: WaitPoint,
+    probes: tokio::sync::oneshot::Sender<Probes>,
+) -> Result<(), Terminated> {
+    let unit_name = component.name().clone();
+
+    let bmp_in_metrics = Arc::new(BmpTcpInMetrics::new(&gate));
+    component.register_metrics(bmp_in_metrics.clone());
+
+    let bmp_metrics = Arc::new(BmpStateMachineMetrics::new());
+    component.register_metrics(bmp_metrics.clone());
+
+    let state_machine_metrics = Arc::new(TokioTaskMetrics::new());
+    component.register_metrics(state_machine_metrics.clone());
+
+    let status_reporter = Arc::new(BmpTcpInStatusReporter::new(
+        &unit_name,
+        bmp_in_metrics.clone(),
+    ));
+
+    let router_states = Arc::new(FrimMap::default());
+
+    let router_id_template =
+        Arc::new(ArcSwap::from_pointee(unit.router_id_template));
+
+    let filter_name = Arc::new(ArcSwap::from_pointee(unit.filter_name));
+
+    let (_api_processor, router_info) = {
+        let router_info = Arc::new(FrimMap::default());
+
+        let processor = Arc::new(RouterListApi::new(
+            component.http_resources().clone(),
+            unit.http_api_path.clone(),
+            router_info.clone(),
+            bmp_in_metrics.clone(),
+            bmp_metrics.clone(),
+            router_id_template.clone(),
+            router_states.clone(),
+            component.ingresses().clone(),
+        ));
+
+        component
+            .register_http_resource(processor.clone(), &unit.http_api_path);
+
+        (processor, router_info)
+    };
+
+    let roto_compiled = component.roto_compiled().clone();
+    let tracer = component.tracer().clone();
+
+    let ingress_register = component.ingresses();
+
+    gate.process_until(waitpoint.ready()).await?;
+
+    waitpoint.running().await;
+
+    let component = Arc::new(RwLock::new(component));
+
+    let tracing_mode = Arc::new(ArcSwap::from_pointee(unit.tracing_mode));
+
+    let _ = probes.send(Probes {
+        router_id_template: router_id_template.clone(),
+        filter_name: filter_name.clone(),
+        tracing_mode: tracing_mode.clone(),
+        router_states: router_states.clone(),
+        bmp_in_metrics: bmp_in_metrics.clone(),
+        bmp_metrics: bmp_metrics.clone(),
+    });
+
+    BmpTcpInRunner::new(
+        component,
+        unit.listen,
+        unit.http_api_path,
+        gate,
+        router_states,
+        router_info,
+        bmp_metrics,
+        bmp_in_metrics,
+        state_machine_metrics,
+        status_reporter,
+        roto_compiled,
+        router_id_template,
+        filter_name,
+        tracer,
+        tracing_mode,
+        ingress_register,
+    )
+    .run::<_, _, StandardTcpStream, BmpTcpInRunner>(Arc::new(
+        StandardTcpListenerFactory,
+    ))
+    .await?;
+
+    Ok(())
+}
+
+/// A `BmpTcpIn` from the TOML of a `bmp-tcp-in` unit (without `type`).
+pub fn parse_unit(toml_str: &str) -> Result<BmpTcpIn, String> {
+    toml::from_str::<BmpTcpIn>(toml_str).map_err(|e| e.to_string())
+}
